@@ -632,6 +632,12 @@ def make_desc(draw):
                                                'iso-8859-1', 'iso-8859-1', 'latin1', 'ISO-8859-1']))
         if fn in ('make', 'make_qr') and draw(st.booleans()):
             kw['eci'] = True
+    if isinstance(content, list) and draw(st.integers(0, 2)) == 0:
+        # options that apply to every part of a multi-part content
+        if draw(st.booleans()):
+            kw['mode'] = 'byte'
+        else:
+            kw['encoding'] = draw(st.sampled_from(['utf-8', 'iso-8859-15']))
     desc = {'op': 'make', 'fn': fn, 'content': enc_content(content), 'kw': kw}
     if kw.get('encoding') in ('iso-8859-1', 'shift_jis', 'utf-8') and draw(st.booleans()):
         desc['own'] = True  # the session passes the library's own constant object, the pristine process an equal one
@@ -751,7 +757,7 @@ class History(RuleBasedStateMachine):
         self.makes.append(len(self.ops))
         self._do(new)
 
-    @rule(parts=st.lists(SMALL_TEXT, min_size=2, max_size=3), kw=st.sampled_from([{}, {'micro': False}, {'error': 'M'}]))
+    @rule(parts=st.lists(SMALL_TEXT, min_size=2, max_size=3), kw=st.sampled_from([{}, {'micro': False}, {'error': 'M'}, {'mode': 'byte'}, {'encoding': 'utf-8'}, {'mode': 'byte', 'micro': False}]))
     def same_object(self, parts, kw):
         self._do({'op': 'sameobj', 'content': enc_content(parts), 'kw': kw})
 
